@@ -184,7 +184,11 @@ def attr_cases(rng, reps):
 
 
 def A(sh, data): return "A:%s:%s" % (",".join(map(str, sh)), ",".join(map(str, data)))
-def rnd(rng, n, lo=-4, hi=9): return A((n, n), [rng.randint(lo, hi) for _ in range(n * n)])
+def rnd(rng, n, lo=None, hi=None):
+    """square operand; by default values whose products and sums are NOT representable in binary32 (odd, products > 2^24) and
+    stay far inside int64 for every pipeline / tree of the tables (at most three chained matmuls of extent <= 3)"""
+    if lo is not None: return A((n, n), [rng.randint(lo, hi) for _ in range(n * n)])
+    return A((n, n), [rng.choice([-1, 1]) * (rng.randint(1500, 3000) | 1) for _ in range(n * n)])
 
 
 def gen_cases(rng, tier):
@@ -204,13 +208,20 @@ def gen_cases(rng, tier):
             stream = "trees-wf" if wf(parse(name)) else "trees-outside-wf"
             out.append((stream, "ext S:dyn S:%s S:%s %s %s %s" % ("g1" if g else "g0", name, rnd(rng, n), rnd(rng, n), rnd(rng, n)), "c14x"))
     for name, sa, sb, P, osh, kind in attr_cases(rng, 3 if tier == "quick" else 25):
+        import struct
+        def f2b(x): return struct.unpack("<q", struct.pack("<d", float(x)))[0]
+        F64 = [0.1, 0.3, -0.7, 1.0 / 3.0, -2.0 / 3.0, 1.0 + 2.0 ** -40, 16777217.0, -16777219.0, 33554433.0, 1e-3, 123456789.123]
         def data(shp):
+            # values that are NOT representable in binary32 (float64 fractions / 1+2^-40 / > 2^24 odd; ints > 2^24 and > 2^53 odd)
             n = _size(shp)
-            if kind == "act": return [rng.choice([-9, -6, -3, -2, -1, 1, 2, 3, 5, 7, 10]) for _ in range(n)]
-            if kind == "small": return [rng.choice([-2, -1, 1, 2, 3]) for _ in range(n)]
-            if kind == "bool": return [rng.randint(0, 1) * rng.randint(1, 5) for _ in range(n)]
-            return [rng.randint(-9, 20) for _ in range(n)]
-        out.append(("attributes", "attr S:%s %s %s L:%s L:%s" % (name, A(sa, data(sa)), A(sb, data(sb)), ",".join(map(str, P)), ",".join(map(str, osh))), "c14"))
+            if kind in ("act", "float"):     # the double operands of the driver: bit patterns
+                return [f2b(rng.choice(F64) if rng.random() < 0.5 else rng.choice([k for k in range(-60, 61) if k]) * 0.1) for _ in range(n)]
+            if kind == "small": return [rng.choice([-2, -1, 1, 2, 3]) * (1 if n > 6 else 4099) for _ in range(n)]
+            if kind == "bool": return [rng.randint(0, 1) * (2 ** 53 + 1) for _ in range(n)]
+            if name == "matmul": return [rng.choice([-1, 1]) * (rng.randint(3000, 6000) | 1) for _ in range(n)]
+            return [rng.choice([-1, 1]) * rng.choice([2 ** 24 + 1, 2 ** 53 + 1, 2 ** 53 + 3, 2 ** 31 + 1, 9007199254740993, 2 ** 40 + 7]) for _ in range(n)]
+        out.append(("attributes", "attr S:%s %s %s L:%s L:%s S:%s" % (name, A(sa, data(sa)), A(sb, data(sb)), ",".join(map(str, P)), ",".join(map(str, osh)),
+                                                                    "f64" if kind in ("act", "float") else "int"), "c14"))
     for prog in DAGS1: out.append(("dags", "dag S:%s" % prog, "c14"))
     for prog in DAGS2: out.append(("dags-random", "dag S:%s" % prog, "c14x"))
     for name in FIXTREES:
